@@ -294,4 +294,23 @@ PROPS = {
             {"pkg": T, "test": "TestVerifC10", "quick": (16, 2500), "thorough": (16, 250000), "timeout_q": 900},
         ],
     },
+    "C15": {
+        "level": "exploration",
+        "claim": ("Metamorphic relation over generated (old policy, new policy) pairs (import and export policies of 0-3 statements with "
+                  "prefix-set / neighbour / community / AS_PATH-length conditions and accept/reject, MED, community, LOCAL_PREF and "
+                  "prepend actions; changed defined-set contents and assignment defaults), route sets of 2-8 announcements from two "
+                  "source peers, five reset procedures (API both/all, out then in, in then out, in + ROUTE-REFRESH from the targets, "
+                  "per-peer both) and 0-3 announcements/withdrawals in flight while the reset is issued: after the reset the Loc-RIB "
+                  "(prefix, source, attributes, best flag) and what each of two target peers (eBGP, iBGP) holds equal those of a "
+                  "fresh server started with the new policy and fed the final route set; repeating the reset changes nothing."),
+        "note": ("IPv4 unicast only; peers are not route-server clients (per-peer policies apply only to those); policy changes "
+                 "are made with SetPolicies + SetPolicyAssignment; ExternalCompareRouterId is set so that the decision between "
+                 "equal external paths does not depend on arrival order, which differs between the two runs."),
+        "technique": "metamorphic property testing (rapid) in virtual time: state after policy change + soft reset vs. fresh run under the new policy",
+        "rule": ("non-trivial when the new program differs from the old one and the fresh run's Loc-RIB is not empty; distinct by case hash"),
+        "assumptions": [],
+        "units": [
+            {"pkg": S, "test": "TestVerifC15", "quick": (16, 60), "thorough": (16, 6000), "timeout_q": 1500},
+        ],
+    },
 }
